@@ -408,8 +408,8 @@ def db_combo(item):
     def on_exec(s, ctx):
         stats["schedules"] += 1
         hist = ctx["hist"]
-        stats["outcomes"].add(tuple(sorted((repr(h[0]), h[3])
-                                           for h in hist)))
+        stats["outcomes"].add(tuple(sorted(((repr(h[0]), h[3])
+                                            for h in hist), key=repr)))
         why = None
         if s.deadlock:
             why = "deadlock"
